@@ -261,7 +261,7 @@ def run_layout(case, tape):
         for r, res in enumerate(results):
             if res['routes'] != r0:
                 raise OracleFail('routes-differ', dict(ranks=[0, r], a=r0, b=res['routes']))
-        ncoll = sum(1 for rec in w.log if rec[3] == 'coll' and rec[6] in ('Alltoall', 'Allgather'))
+        ncoll = sum(1 for rec in w.log if rec[3] == 'coll' and rec[6] in ('Alltoall', 'Allgather', 'Alltoallv', 'Allgatherv'))
         probes = {}
         if case.get('salted'):
             probes['hash_salted_names'] = 1
